@@ -166,6 +166,17 @@ var (
 	vocabStatus   = []int{0, 0, 200, 204, 299, 201}
 )
 
+// hosts that are byte suffixes of one another (deep nesting in a suffix tree)
+var suffixFamilies = [][]string{
+	{"[::1]", "[1::1]", "[21::1]", "[321::1]", "[4321::1]", "[f:4321::1]"},
+	{"[::]", "[1::]", "[a1::]", "[::a1:0:0]"},
+	{"[2001:db8::1]", "[db8::1]", "[b8::1]", "[8::1]", "[::1]", "[2001:db8::a:1]"},
+	{"127.0.0.1", "27.0.0.1", "7.0.0.1", "10.0.0.1", "210.0.0.1"},
+	{"example.com", "xample.com", "ample.com", "mple.com", "ple.com", "le.com", "e.com", "an.example.com", "n.example.com"},
+	{"a.b.c.d.e.example.com", "b.c.d.e.example.com", "c.d.e.example.com", "d.e.example.com", "e.example.com", "xe.example.com"},
+	{"localhost", "ocalhost", "calhost", "host", "st", "t"},
+}
+
 // a scheme of exactly 64 bytes (the documented maximum)
 var scheme64 = "s" + strings.Repeat("c", 61) + "-z"
 
@@ -306,6 +317,27 @@ func genCfg(r *R) Cfg {
 			if r.P(0.1) {
 				c.Origins = append(c.Origins, p) // duplicate
 			}
+		}
+	}
+	if len(c.Origins) > 0 && c.Origins[0] != "*" && r.P(0.07) {
+		// a suffix family: hosts that are byte suffixes of one another, so that the
+		// origin tree nests three and more levels deep under one branch
+		fam := pick(r, suffixFamilies)
+		scheme := "https"
+		if isIPHost(fam[0]) {
+			scheme = "http"
+		} else if r.P(0.2) {
+			scheme = "http"
+		}
+		for _, h := range subset(r, fam, pick(r, []float64{0.5, 0.8, 1})) {
+			port := pick(r, []string{"", "", ":8080", ":*", ":9090"})
+			if !isIPHost(h) && r.P(0.2) {
+				h = "*." + h
+			}
+			if scheme != "https" && !isLoopbackish(h) && restricted {
+				c.TolInsecure = true
+			}
+			c.Origins = insertAt(c.Origins, r.Intn(8), scheme+"://"+h+port)
 		}
 	}
 	if r.P(0.1) {
